@@ -16,6 +16,7 @@ from core import (Fail, Unsupported, OutOfBound, NIL, ListRef, Cell, Fn, Ptr, Ce
                   logic_not, logic, equals)
 
 SPECIAL = ("<if>", "<else>", "<while>")
+NATIVE_NAMES = {"len": "VecLen", "push": "VecPush", "remove": "VecRemove", "clear": "VecClear", "reverse": "VecReverse", "clone": "VecClone", "join": "VecJoin"}
 
 
 class Frame:
@@ -472,7 +473,10 @@ class Machine:
                         ops.clear()
                         if not bargs:
                             raise Fail("call", "built-in without a receiver")
+                        # the native call runs inside its own frame; a failing built-in leaves that frame on the stack
+                        self.stack.append(Frame("<native code>#NonSweepingBuiltInFunction(%s)" % NATIVE_NAMES.get(f.name, f.name)))
                         rv = list_builtin(o, f.name, bargs[0], bargs[1:])
+                        self.stack.pop()
                         if rv is not None:
                             ops.append(rv)
                         ip = nxt
@@ -510,8 +514,10 @@ class Machine:
         return None
 
 
-def run_module(funcs, module_path, oracle, inputs, trace=None, **kw):
+def run_module(funcs, module_path, oracle, inputs, trace=None, holder=None, **kw):
     m = Machine(funcs, module_path, oracle, inputs, **kw)
+    if holder is not None:
+        holder["machine"] = m       # after a failing run: machine.stack = the frames active at the point of failure
     m.trace = trace
     m.run_function("__module__", [], None)
     return None
